@@ -33,6 +33,11 @@ def main():
                 print('%-44s PATCH DOES NOT APPLY: %s' % (name, (r.stdout + r.stderr)[:200]))
                 out[name] = {'error': 'patch does not apply to the current tree'}
                 continue
+            imp = subprocess.run(['/venv/bin/python', '-c', 'import fxpmath'], cwd='/tmp', env=dict(os.environ, PYTHONPATH=tmp), capture_output=True, text=True)
+            if imp.returncode != 0:
+                print('%-44s PATCHED TREE DOES NOT IMPORT: %s' % (name, imp.stderr.strip().splitlines()[-1][:120]))
+                out[name] = {'error': 'patched tree does not import'}
+                continue
             rd = subprocess.run(['/venv/bin/python', os.path.join(os.path.dirname(d), 'demo.py')], cwd=tmp,
                                 env=dict(os.environ, PYTHONPATH=tmp), capture_output=True, text=True)
             res = {'demo_exit': rd.returncode}
